@@ -1,6 +1,7 @@
 package main
 
 import (
+	"strings"
 	"bytes"
 	"crypto/sha256"
 	"encoding/base64"
@@ -95,6 +96,31 @@ func miDecEvent(id string, draft string, digest string, stream []byte, max uint6
 		}
 		buf := make([]byte, dst)
 		eofs, errs := 0, 0
+		if mode == "copy" || mode == "sniffcopy" {
+			// a consumer that drains the decoder with io.Copy (which prefers an io.WriterTo if the decoder has one),
+			// optionally after sniffing a few bytes with Read.  The drain is logged as ONE read of size 0.
+			if mode == "sniffcopy" {
+				n, err := dec.Read(buf)
+				res := "nil"
+				if err == io.EOF {
+					res = "eof"
+				} else if err != nil {
+					res = "err"
+				}
+				reads = append(reads, miRead{N: dst, Data: ints(buf[:n]), Res: res})
+				if res != "nil" {
+					return
+				}
+			}
+			var out bytes.Buffer
+			_, err := io.Copy(&out, dec)
+			res := "eof"
+			if err != nil {
+				res = "err"
+			}
+			reads = append(reads, miRead{N: 0, Data: ints(out.Bytes()), Res: res})
+			return
+		}
 		for i := 0; i < len(stream)+8 && eofs < 2; i++ {
 			n, err := dec.Read(buf)
 			res := "nil"
@@ -144,7 +170,7 @@ func miceGrid(args []string) error {
 	thorough := len(args) > 0 && args[0] == "thorough"
 	r := rand.New(rand.NewSource(seed()))
 	id := 0
-	modes := []string{"whole", "one", "rand"}
+	modes := []string{"whole", "one", "rand", "copy", "sniffcopy"}
 	for _, draft := range []string{"02", "03"} {
 		small := []int{1, 2, 3, 7, 16}
 		if thorough {
@@ -156,7 +182,7 @@ func miceGrid(args []string) error {
 				p := miPayload(r, l)
 				st, dg := miEncEvent("g"+strconv.Itoa(id), draft, rs, p)
 				dst := []int{1, rs, rs + 1, 4096}[r.Intn(4)]
-				miDecEvent("g"+strconv.Itoa(id)+"d", draft, dg, st, 16384, modes[id%3], dst, r, p, true, "honest")
+				miDecEvent("g"+strconv.Itoa(id)+"d", draft, dg, st, 16384, modes[id%5], dst, r, p, true, "honest")
 			}
 		}
 		for _, rs := range []int{255, 256, 4096, 16383, 16384} {
@@ -164,7 +190,7 @@ func miceGrid(args []string) error {
 				id++
 				p := miPayload(r, l)
 				st, dg := miEncEvent("b"+strconv.Itoa(id), draft, rs, p)
-				miDecEvent("b"+strconv.Itoa(id)+"d", draft, dg, st, 16384, modes[id%3], []int{1000, rs, 70000}[r.Intn(3)], r, p, true, "honest")
+				miDecEvent("b"+strconv.Itoa(id)+"d", draft, dg, st, 16384, modes[id%5], []int{1000, rs, 70000}[r.Intn(3)], r, p, true, "honest")
 			}
 		}
 		n := 60
@@ -183,7 +209,7 @@ func miceGrid(args []string) error {
 			}
 			p := miPayload(r, l)
 			st, dg := miEncEvent("r"+strconv.Itoa(id), draft, rs, p)
-			miDecEvent("r"+strconv.Itoa(id)+"d", draft, dg, st, uint64(16384), modes[id%3], 1+l/64+r.Intn(2*rs+2), r, p, true, "honest")
+			miDecEvent("r"+strconv.Itoa(id)+"d", draft, dg, st, uint64(16384), modes[id%5], 1+l/64+r.Intn(2*rs+2), r, p, true, "honest")
 		}
 	}
 	return nil
@@ -202,7 +228,7 @@ func miceMut(args []string) error {
 	thorough := len(args) > 0 && args[0] == "thorough"
 	r := rand.New(rand.NewSource(seed()))
 	id := 0
-	modes := []string{"whole", "one", "rand"}
+	modes := []string{"whole", "one", "rand", "copy", "sniffcopy"}
 	next := func(p string) string { id++; return p + strconv.Itoa(id) }
 	for _, draft := range []string{"02", "03"} {
 		type hc struct{ rs, l int }
@@ -233,7 +259,7 @@ func miceMut(args []string) error {
 				if dst < len(s)/64 { // keep the number of Read calls per case bounded
 					dst = len(s)/64 + 1
 				}
-				miDecEvent(next(tag), draft, digest, s, max, modes[id%3], dst, r, p, honest, note)
+				miDecEvent(next(tag), draft, digest, s, max, modes[id%5], dst, r, p, honest, note)
 			}
 			big := len(st) > 400
 			// every bit (thorough, small streams) / one bit per byte / sampled bytes (large streams)
@@ -313,6 +339,11 @@ func miceMut(args []string) error {
 			}
 			dec("d", st, stdDigest(other, proof), 16384, false, "otherdraft")
 			dec("d", st, pd, 16384, false, "noalg")
+			dec("d", st, strings.ToUpper(dg[:len(draftOf(draft).ContentEncoding())])+dg[len(draftOf(draft).ContentEncoding()):], 16384, false, "uppertoken")
+			dec("d", st, "sha-256="+pd, 16384, false, "sha-256 token")
+			dec("d", st, "x=1,"+dg, 16384, false, "list: foreign first")
+			dec("d", st, dg+","+dg, 16384, false, "list: twice")
+			dec("d", st, " "+dg, 16384, false, "leading space")
 			dec("d", st, stdDigest(draft, proof[:31]), 16384, false, "short")
 			dec("d", st, stdDigest(draft, append(append([]byte{}, proof...), 0)), 16384, false, "long")
 			dec("d", st, dg[:len(dg)-1]+"!", 16384, false, "badchar")
@@ -334,7 +365,7 @@ func miceMut(args []string) error {
 			st = append(st, u64bytes(uint64(rs))...)
 			st = append(st, miPayload(r, r.Intn(3*(rs+32)))...)
 			pr := sha256.Sum256(append(append([]byte{}, st[8:]...), byte(r.Intn(2))))
-			miDecEvent(next("a"), draft, stdDigest(draft, pr[:]), st, 16384, modes[i%3], 1+r.Intn(8), r, nil, false, "arbitrary")
+			miDecEvent(next("a"), draft, stdDigest(draft, pr[:]), st, 16384, modes[i%5], 1+r.Intn(8), r, nil, false, "arbitrary")
 		}
 	}
 	return nil
